@@ -95,7 +95,7 @@ def main():
         engines.setdefault(c["engine"],[]).append(pid)
     m={
       "version":1,
-      "setup_cmd":"cd /verif/sim && CARGO_NET_OFFLINE=true CARGO_TARGET_DIR=/verif/target cargo build --release --offline && CARGO_NET_OFFLINE=true CARGO_TARGET_DIR=/verif/target-fuzzing cargo build --release --offline --features fuzzing",
+      "setup_cmd":"cd /verif/sim && CARGO_NET_OFFLINE=true CARGO_TARGET_DIR=/verif/target cargo build --release --offline && CARGO_NET_OFFLINE=true CARGO_TARGET_DIR=/verif/target-fuzzing cargo build --release --offline --features fuzzing && cd /repo/ciphercore-base && CARGO_NET_OFFLINE=true CARGO_TARGET_DIR=/verif/target/bins cargo build --release --offline --bin ciphercore_split_parties",
       "hooks":{
         "guard":"ciphercore_verif (unused: no hook was needed; seams are the Evaluator trait, SimpleEvaluator::new(Some(seed)) and the existing cargo features `fuzzing` and `stderr-to-log`)",
         "enable":"none needed; the simulator crate /verif/sim depends on /repo/ciphercore-base by path and is rebuilt by ./check on every run",
